@@ -65,7 +65,9 @@ SetDefaults(d)   == (d = "none" \/ d \in Range(names)) /\ Step([op |-> "setdefau
 \* batches: every ordered pair of the macro-defining profiles, and each of the others once in front of and once behind one of them
 MacroProfiles == {"P1", "P2", "P3", "P5"}
 Pairs == ({<<p, q>> : p \in MacroProfiles, q \in MacroProfiles} \ {<<p, p>> : p \in Custom})
-         \cup {<<"P4", "P1">>, <<"P2", "P4">>, <<"P6", "P2">>, <<"P5", "P6">>, <<"P1x", "P2">>, <<"P3", "P1x">>}
+         \cup {<<"P4", "P1">>, <<"P2", "P4">>, <<"P6", "P2">>, <<"P5", "P6">>, <<"P1x", "P2">>, <<"P3", "P1x">>,
+               \* a batch whose only macro ("mynew") shadows a macro of a REGISTERED profile (P1) and no predefined one
+               <<"P3", "P4">>, <<"P6", "P3">>}
 Init == /\ names = <<"B">> /\ defaults = "none" /\ hist = <<>>
         /\ used = FoldUpdate(BaseUsed, <<"B">>) /\ comp = ResetAll(<<"B">>, FoldUpdate(BaseUsed, <<"B">>))
 Next == \/ \E p \in Custom : AddProfile(p) \/ RemoveProfile(p) \/ RemoveUnknown(p)
